@@ -100,7 +100,10 @@ def gen_plan(seed, tier="quick"):
                     for _ in range(r.randrange(1, 8))]
             plan["callers"].append({"id": "B", "start_us": r.choice([0, 1000, 30000]), "ops": ops2})
         plan["max_iterations"] = 2_000_000
-        if eng == "tridonic" and not long_run and x.random() < 0.12:
+        if eng == "tridonic" and not long_run and x.random() < 0.15:
+            # a second gateway / driver object in the same process (same start of the sequence numbers)
+            plan["second_line"] = plans.gen_second_line(x, lose=False)
+        elif eng == "tridonic" and not long_run and x.random() < 0.12:
             # one write finds the gateway gone, it comes back, the driver reconnects and retries:
             # sequence numbers keep their rules across the two connections
             plan["write_fault_at"] = [3 + x.choice([0, 0, 0, 1, 2, 5])]       # (writes 0, 1 are the handshake)
@@ -198,6 +201,10 @@ def judge_async(rr):
         return out
     for e in rr.dev.referee_errors:
         V("malformed-packet", "referee: %s" % (e,), site=str(e[0]))
+    for c_, d_, s_ in drvsim.judge_second_line(rr):
+        V(c_, d_, s_)
+    for e in getattr(getattr(rr, "devB", None), "referee_errors", []):
+        V("malformed-packet", "referee (second gateway): %s" % (e,), site=str(e[0]))
     # a confirmation slower than 80 % of the serial drivers' timeout may shift the
     # confirmations / answers of everything after it (C16/C17's subject): the
     # receive-side comparison is then skipped for the run
